@@ -177,6 +177,48 @@ def evaluate(item):
         # subset that still names the old ids - only jobs that exist now may contribute
         if len(sps) >= 2 and not viol:
             try:
+                from signac.errors import DestinationExistsError
+
+                def diff_ok(handles, cur, what):
+                    nonlocal n
+                    n += 1
+                    want_d = {h.id: nest(dd) for h, dd in zip(handles, ref_diff(cur))}
+                    got_d = signac.diff_jobs(*handles)
+                    if not (set(got_d) == set(want_d) and all(
+                            canon.typed_eq(canon.plain(_untup(got_d[k])), canon.plain(_untup(want_d[k]))) for k in want_d)):
+                        viol.append({"sig": {"kind": "diff-uses-stale-session-data", "after": what}, "scenario": "diff_jobs/history",
+                                     "input": {"statepoints": sps, "op": what}, "expected": repr(want_d), "observed": repr(got_d),
+                                     "msg": f"{what}: diff_jobs through the same handles gives {got_d}, expected {want_d}"})
+                # a refused state point assignment (the destination exists) changes nothing the summaries may show
+                refused = False
+                if sps[0] != sps[1]:  # (an assignment that only changes JSON types is open finding KF-C03-4, not used here)
+                    try:
+                        jobs[0].statepoint = dict(sps[1])
+                    except DestinationExistsError:
+                        refused = True
+                if refused:
+                    for ex in (False, True):
+                        n += 1
+                        got = norm_schema(p0.detect_schema(exclude_const=ex))
+                        if got != ref_schema(sps, ex):
+                            viol.append({"sig": {"kind": "schema-uses-stale-session-data", "exclude_const": ex, "after": "refused-rekey"},
+                                         "scenario": "detect_schema/history", "input": {"statepoints": sps, "op": "refused re-key"},
+                                         "expected": _show(ref_schema(sps, ex)), "observed": _show(got),
+                                         "msg": f"after a refused state point assignment detect_schema(exclude_const={ex}) of the same "
+                                                f"session gives {_show(got)}, expected {_show(ref_schema(sps, ex))}"})
+                    fresh_handles = [p0.open_job(id=i) for i in ids]
+                    diff_ok(fresh_handles, list(sps), "diff after a refused re-key")
+                    jobs[0] = p0.open_job(id=ids[0])  # the refused handle keeps its edited in-memory state point: not used again
+                # the same handles before and after a state point change made through one of them
+                handles = [p0.open_job(id=i) for i in ids]
+                diff_ok(handles, list(sps), "first diff")
+                changed = dict(sps[1], rekeyed=2)
+                handles[1].statepoint = changed
+                cur = list(sps)
+                cur[1] = changed
+                diff_ok(handles, cur, "diff after re-key through a diffed handle")
+                handles[1].statepoint = dict(sps[1])
+                diff_ok(handles, list(sps), "diff after re-keying back")
                 jobs[-1].remove()
                 remaining = list(sps[:-1])
                 new_sp = dict(sps[0], rekeyed=1)
